@@ -459,4 +459,13 @@ def pilotSandboxes (sess : Nat) : List (Nat × (Nat × Nat)) → List Nat → Li
   | _,     []          => []
   | cache, pid :: rest => (pilotSandbox sess cache pid).1 :: pilotSandboxes sess (pilotSandbox sess cache pid).2 rest
 
+/-! ### what of the input tarball is on disk when it is transferred -/
+
+/-- the archive of a task's TARBALL directives is written through a buffered temporary file (`buf` bytes of buffer): what
+    the buffer still holds is not on disk.  With `closesFile` (read from the source: the temporary file is closed after the
+    archive is finished) all `size` bytes are on disk when the tarball is transferred; otherwise the tail that did not fill
+    a buffer is missing -/
+def tarOnDisk (closesFile : Bool) (size buf : Nat) : Nat :=
+  if closesFile then size else size - size % buf
+
 end RPVerif.Staging
